@@ -1,0 +1,61 @@
+//go:build verif
+
+/*
+SPDX-License-Identifier: Apache-2.0
+*/
+
+package wallet
+
+import (
+	"time"
+
+	"github.com/hyperledger/aries-framework-go/spi/storage"
+)
+
+// VerifContents is an opened wallet content store over a given storage provider, with a live session of its own,
+// so that a verification harness can call safeSave (store only if absent) from many goroutines.
+type VerifContents struct {
+	cs    *contentStore
+	user  string
+	token string
+}
+
+// NewVerifContents opens a content store for a fresh profile id.
+func NewVerifContents(p storage.Provider, id string) (*VerifContents, error) {
+	cs := newContentStore(p, nil, &profile{ID: id, User: id})
+
+	token, err := sessionManager().createSession(id, nil, time.Hour)
+	if err != nil {
+		return nil, err
+	}
+
+	if err := cs.Open(nil, &unlockOpts{tokenExpiry: time.Hour}); err != nil {
+		return nil, err
+	}
+
+	return &VerifContents{cs: cs, user: id, token: token}, nil
+}
+
+// SafeSave calls safeSave.
+func (v *VerifContents) SafeSave(key string, content []byte) error {
+	return v.cs.safeSave(v.token, key, content)
+}
+
+// Get reads the content stored under key.
+func (v *VerifContents) Get(key string) ([]byte, error) {
+	v.cs.lock.RLock()
+	defer v.cs.lock.RUnlock()
+
+	store, err := v.cs.open(v.token)
+	if err != nil {
+		return nil, err
+	}
+
+	return store.Get(key)
+}
+
+// Close closes the content store and the session.
+func (v *VerifContents) Close() {
+	v.cs.Close()
+	sessionManager().closeSession(v.user)
+}
